@@ -23,5 +23,7 @@ def run(rep, tier):
     tol.r_grade_hinit(rep, f)
     rep.rule("R-TOL-FROM", "a tolerance passed as a vector stays per-component: every From<sequence> for Tolerance is evaluated exactly on vectors of length 1..4 for every coincidence pattern of the entries and component i reads back entry i")
     tol.r_tol_from(rep, f)
+    rep.rule("R-TOL-ROUTE", "at every internal call that passes both tolerances on (hinit and helpers) the callee's atol receives the caller's atol and its rtol the caller's rtol")
+    tol.r_tol_route_helpers(rep, f)
     rep.explanation = ("Decides the structural part of the symmetries: parity of every time-like quantity under reflection, homogeneity of every step-size decision input under scaling and duplication, "
                        "and alias-freedom of scalar tolerances. NOT decided: bit-identity itself (needs rounding/associativity reasoning per operation) and mirroring accuracy of event times.")
